@@ -146,3 +146,34 @@ Print Assumptions chain_exec_node.
 (* Non-vacuity: Proofs/ChainProps.v, ex_chain_in / ex_chain_exec_node instantiate every hypothesis on a
    concrete if / text / else-if / else chain. *)
 (* see ChainProps.ex_chain_exec_node *)
+
+(* ---- END TO END (Proofs/EndToEndDirectives.v, session 3): the source
+   <p :if=Q${a}Q>A</p> <!-- c --> <p :elif=Q${b}Q>B</p><p :else>C</p>  loads and renders exactly the first true branch for
+   all boolean a, b (the text and comment between the elements do not break the chain and are printed as they are); a
+   string-valued condition selects its branch iff the string is exactly true. *)
+From Coq Require Import List NArith ZArith Bool Lia Arith String Ascii.
+From Tpl Require Import Html.Exec Html.Manager Gen.Facts Proofs.ExecSpec Proofs.RenderPlain Proofs.RangeProps Proofs.FuelMono
+  Proofs.ReadbackExample Proofs.EndToEnd.
+Import ListNotations.
+Open Scope N_scope.
+From Tpl Require Import Proofs.EndToEndDirectives.
+Theorem e2e_chain_source_to_output : loads_and src_chain (fun tp =>
+  forall (b : bool) (t : tbl) (st : rst) (fuel : nat), r_budget st = None -> (4 <= fuel)%nat ->
+  (forall a : bool,
+     bx_execute bx_mgr fuel tp (VMap [(s2l "a", VBool a); (s2l "b", VBool b)]) t st = (chain_out a b, ROk, chain_tbl t a b, st)) /\
+  (forall s : str,
+     bx_execute bx_mgr fuel tp (VMap [(s2l "a", VStr s); (s2l "b", VBool b)]) t st =
+     (chain_out (str_eqb s (s2l "true")) b, ROk, chain_tbl t (str_eqb s (s2l "true")) b, st)) /\
+  (forall k z,
+     bx_execute bx_mgr fuel tp (VMap [(s2l "a", VInt k z); (s2l "b", VBool b)]) t st = (chain_out false b, ROk, chain_tbl t false b, st))).
+Proof. exact EndToEndDirectives.chain_source_to_output. Qed.
+Theorem e2e_chain_string_selected_iff : forall (s : str) (b : bool) (t : tbl) (st : rst) (fuel : nat),
+  r_budget st = None -> (4 <= fuel)%nat ->
+  (s = s_true ->
+   bx_execute bx_mgr fuel (tp_of root_chain) (VMap [(s_a, VStr s); (s_b, VBool b)]) t st
+   = (s2l "<p>A</p> <!-- c --> ", ROk, chain_tbl t true b, st)) /\
+  (s <> s_true ->
+   bx_execute bx_mgr fuel (tp_of root_chain) (VMap [(s_a, VStr s); (s_b, VBool b)]) t st
+   = (gap_chain ++ (if b then s2l "<p>B</p>" else s2l "<p>C</p>"), ROk, chain_tbl t false b, st)).
+Proof. exact EndToEndDirectives.chain_string_selected_iff. Qed.
+Print Assumptions e2e_chain_source_to_output.
